@@ -161,6 +161,9 @@ MUTS = {
         old_value, new_value)""", """        self._value_spec.element if self._value_spec else None,
         old_value, value)"""),
  'N31-memos-reset-before-any-handler-runs (seeded C09-14)': ('PATCH', 'seeded/C09-14/patch.diff', ''),
+ 'N32-dict-write-reports-the-value-handed-in-not-the-stored-one': (D, """        utils.KeyPath(key, self.sym_path), self._update_target, field,
+        old_value, new_value)""", """        utils.KeyPath(key, self.sym_path), self._update_target, field,
+        old_value, value)"""),
 }
 only = sys.argv[1:]
 for name, (path, old, new) in MUTS.items():
